@@ -120,11 +120,16 @@ size_t mbsnrtowcs(wchar_t *dst, const char **src_p, size_t srclen, size_t dstlen
 	int clen;
 	const char *s, *s_end;
 	wchar_t *w;
+	static mbstate_t internal_state;
 	mbstate_t pstmp;
 	size_t count = 0;
 
-	if (!ps) {
-		memset(&pstmp, 0, sizeof(pstmp));
+	/* no state given: own internal state, kept from call to call */
+	if (!ps)
+		ps = &internal_state;
+	/* only counting: the state is not advanced */
+	if (!dst) {
+		pstmp = *ps;
 		ps = &pstmp;
 	}
 
